@@ -29,7 +29,7 @@ type c07Params struct {
 	Seg     int  `json:"seg"`
 }
 
-var c07Behaviours = []string{"none", "trusted", "untrusted", "expired", "wrong-eku", "cv-missing", "cv-wrong-key", "cv-other-transcript"}
+var c07Behaviours = []string{"none", "trusted", "untrusted", "expired", "wrong-eku", "cv-missing", "cv-wrong-key", "cv-other-transcript", "enc-cert-first-cv-missing"}
 
 func (c07) ID() string    { return "C07" }
 func (c07) Level() string { return "fault_enumeration" }
@@ -102,7 +102,7 @@ func c07Model(policy int, behaviour string, suite uint16) bool {
 		return !required
 	}
 	switch behaviour {
-	case "cv-missing", "cv-wrong-key", "cv-other-transcript":
+	case "cv-missing", "cv-wrong-key", "cv-other-transcript", "enc-cert-first-cv-missing":
 		return false // possession of the certificate's key was not proved
 	}
 	if policy >= 3 {
@@ -176,6 +176,9 @@ func (c07) Run(c *Case, src *vs.Src) *Result {
 			h.Peer.OwnEncKey = sm2Key(base + "_enc")
 		}
 		switch p.Behaviour {
+		case "enc-cert-first-cv-missing":
+			// somebody else's (public) encryption certificate in the authentication position, no proof of possession
+			o.Certs = ders("client2_enc", "client_enc")
 		case "cv-wrong-key":
 			o.CVKey = sm2Key("client2_sig")
 		case "cv-other-transcript":
@@ -209,7 +212,7 @@ func (c07) Run(c *Case, src *vs.Src) *Result {
 						rest = append(rest, "CERT")
 					}
 					rest = append(rest, "CKE")
-					if requested && base != "" && p.Behaviour != "cv-missing" {
+					if requested && base != "" && p.Behaviour != "cv-missing" && p.Behaviour != "enc-cert-first-cv-missing" {
 						rest = append(rest, "CV")
 					}
 					rest = append(rest, "CCS", "FIN", "rFLIGHT", "APP", "rAPP")
@@ -267,7 +270,7 @@ func (c07) Run(c *Case, src *vs.Src) *Result {
 		// what the server reports must be backed by what was checked
 		if len(co.SrvCS.Peer) > 0 {
 			switch p.Behaviour {
-			case "cv-missing", "cv-wrong-key", "cv-other-transcript", "none":
+			case "cv-missing", "cv-wrong-key", "cv-other-transcript", "none", "enc-cert-first-cv-missing":
 				r.Violate("peer-certs-unproven", sigp+" peer-certs-without-proof", "server reports %d peer certificates for behaviour %q", len(co.SrvCS.Peer), p.Behaviour)
 			}
 		}
